@@ -631,6 +631,19 @@ def spoil(f):
     f._directEvaluateCount = 10 ** 6
 
 
+def stencil_exact(op):
+    """the binary64 stencil of the out-of-range derivative is the exact-rational one"""
+    dx = 2.0 ** -op["dxexp"]
+    for x in op["pts"]:
+        x = float(np.float32(x)) if op.get("dtype") == "f32" else float(x)
+        if (x + dx) - x != dx:
+            return False
+        for k in (-2, -1, 1, 2):
+            if Fraction(x) + k * Fraction(dx) != Fraction(x + k * dx):
+                return False
+    return True
+
+
 def exact15(v):
     """survives the %.15g text format unchanged"""
     return float("%.15g" % v) == float(v)
@@ -688,6 +701,12 @@ class TagWorld:
                 g = copy.deepcopy(f)
                 spoil(f)
                 f = g
+                continue
+            if o == "deriv" and not stencil_exact(op):
+                # helpers.derivative replaces dx by (x + dx) - x and rounds x + s dx: for a point
+                # with bits far below dx the stencil is not the exact-rational one of the model
+                # (pass B runs the op)
+                note = "skipped"
                 continue
             if o == "wr" and f.hasInterpolation() and not (
                     exact15(f.interpolationRangeMin()) and exact15(f.interpolationRangeMax())):
